@@ -318,12 +318,23 @@ def canon_ast(n):
 def greenery_reading(ast):
     """The expression as greenery 2.1 reduces it: a multiplier with minimum 0 ( ? , * , {0,n} ) applied to
     x{p,} with p >= 2 (however spelled: xx+, (x{2,3})+, ...) becomes x*, because lego.bound.__mul__
-    evaluates inf*0 as inf and multiplier.canmultiplyby({p,inf},{0,..}) therefore holds."""
+    evaluates inf*0 as inf and multiplier.canmultiplyby({p,inf},{0,..}) therefore holds; likewise x|x{4,}, which
+    greenery factors into x(x{3,})?, becomes x+.  Used only to *name* a disagreement: the signature is given
+    only if the machine behaves exactly like the reference evaluated on this reading."""
     t = ast[0]
     if t in R.ATOMIC:
         return ast
     if t in ('cat', 'alt'):
-        return [t, greenery_reading(ast[1]), greenery_reading(ast[2])]
+        a, b = greenery_reading(ast[1]), greenery_reading(ast[2])
+        if t == 'alt':
+            # x{i,j}|x{p,} with p > j+1 is factored into x{i}(x{..}|x{p-i,})?-like pieces and hits the same product
+            ka, la, ha = power_profile(a)
+            kb, lb, hb = power_profile(b)
+            if ka == kb and (ha is None) != (hb is None):
+                lo_open, hi_closed = (la, hb) if ha is None else (lb, ha)
+                if lo_open > hi_closed + 1:
+                    return ['rep', json.loads(ka), min(la, lb), None]
+        return [t, a, b]
     child = greenery_reading(ast[1])
     if t in ('opt', 'star') or (t == 'rep' and ast[2] == 0):
         k, lo, hi = power_profile(child)
@@ -707,7 +718,7 @@ def run(tier, seed):
         'for S in {π (2 bytes), € (3 bytes)}: all ASTs with <= %d nodes over atoms {S, ., [^S]} x all texts over {a,S,S\'} of <= %d '
         'characters as UTF-8 (whole and with the last byte removed), and all ASTs over {S} x all strings over the bytes of S,S\' '
         'of length <= %d; cpppo.regex_bytes, alternately in one piece / one byte per chunk' % (mb_size, mb_len, mb_len + 1))
-    n = 12000 if thorough else 700
+    n = 6000 if thorough else 700
     shards = 32 if thorough else 16
     common.parallel(shard_random, [(seed, i, n) for i in range(shards)], stats=stats)
     return stats
